@@ -53,7 +53,8 @@ void harness_upgrade_rules(void)
 	int bad = 0;
 	if (other_header) hdr("Host", "example", &bad);
 	if (with_key) hdr("sec-websocket-KEY", key_ok ? "dGhlIHNhbXBsZSBub25jZQ==" : "tooshort", &bad);
-	if (with_version) hdr("Sec-WebSocket-Version", version_ok ? "13" : "8", &bad);
+	int wrong_version = (int)nd_range(0, 3);      /* which wrong version text: another number, look-alikes of "13" */
+	if (with_version) hdr("Sec-WebSocket-Version", version_ok ? "13" : (wrong_version == 0 ? "8" : wrong_version == 1 ? "130" : wrong_version == 2 ? "13, 8" : "1"), &bad);
 	/* offers that merely look like "jet" (prefix, suffix, different case) are other protocols */
 	if (with_proto) hdr("Sec-WebSocket-Protocol", proto_jet ? "chat, jet" : (proto_lookalike ? "jetx, je, Jet" : "chat,superchat"), &bad);
 	int accepted = 0;
